@@ -529,7 +529,10 @@ class XPathToken(Token[ta.XPathTokenType]):
         right_values: Any
         msg = "cannot compare {!r} and {!r}"
 
-        if self.parser.compatibility_mode:
+        if self.parser.version == '1.0':
+            yield from self._iter_xpath1_comparison_data(context)
+            return
+        elif self.parser.compatibility_mode:
             left_values = [x for x in self._items[0].atomization(context)]
             right_values = [x for x in self._items[1].atomization(context)]
             # Boolean comparison if one of the results is a single boolean value (1.)
@@ -548,9 +551,6 @@ class XPathToken(Token[ta.XPathTokenType]):
             # Converts to float for lesser-greater operators (3.)
             if self.symbol in ('<', '<=', '>', '>='):
                 yield from product(map(float, left_values), map(float, right_values))
-                return
-            elif self.parser.version == '1.0':
-                yield from product(left_values, right_values)
                 return
         else:
             left_values = self._items[0].atomization(context)
@@ -594,6 +594,59 @@ class XPathToken(Token[ta.XPathTokenType]):
                             op2.tzinfo = context.timezone
 
             yield op1, op2
+
+    def _iter_xpath1_comparison_data(self, context: ta.ContextType) -> Iterator[Any]:
+        """
+        Generates comparison data couples for XPath 1.0 comparisons: node-sets are
+        compared using the string-values of their nodes, other objects are converted
+        to a common type, that is always a number for lesser-greater operators.
+
+        Ref: https://www.w3.org/TR/xpath-10/#booleans
+        """
+        left_values = [x for x in self._items[0].select(copy(context))]
+        right_values = [x for x in self._items[1].select(copy(context))]
+        is_order = self.symbol in ('<', '<=', '>', '>=')
+        is_left_nodeset = all(isinstance(x, XPathNode) for x in left_values)
+        is_right_nodeset = all(isinstance(x, XPathNode) for x in right_values)
+
+        if is_left_nodeset and is_right_nodeset:
+            convert = self.number_value if is_order else self.string_value
+            yield from product(map(convert, left_values), map(convert, right_values))
+            return
+
+        convert: Callable[[Any], Any]
+        for op1, op2 in product(
+            [left_values] if is_left_nodeset else left_values,
+            [right_values] if is_right_nodeset else right_values
+        ):
+            if isinstance(op1, list) or isinstance(op2, list):
+                # A node-set (a list of nodes) compared with another kind of object
+                other = op2 if isinstance(op1, list) else op1
+                if isinstance(other, bool):
+                    convert = self.boolean_value
+                    op1, op2 = [op1], [op2]
+                elif is_order or not isinstance(other, (str, UntypedAtomic, AnyURI)):
+                    convert = self.number_value
+                else:
+                    convert = self.string_value
+            elif is_order:
+                convert = self.number_value
+            elif isinstance(op1, bool) or isinstance(op2, bool):
+                convert = self.boolean_value
+            elif not isinstance(op1, (str, UntypedAtomic, AnyURI)) or \
+                    not isinstance(op2, (str, UntypedAtomic, AnyURI)):
+                convert = self.number_value
+            else:
+                convert = self.string_value
+
+            for x1, x2 in product(
+                map(convert, op1 if isinstance(op1, list) else [op1]),
+                map(convert, op2 if isinstance(op2, list) else [op2])
+            ):
+                if is_order and isinstance(x1, bool):
+                    yield float(x1), float(x2)
+                else:
+                    yield x1, x2
 
     def get_operands(self, context: ta.ContextType, cls: type[Any] | None = None) -> Any:
         """
